@@ -48,9 +48,10 @@ of the expected behaviour.
 """
 from collections import namedtuple
 
-State = namedtuple("State", "pos closed seens hold")
+State = namedtuple("State", "pos closed seens hold yp")
 # closed: "open" | "hard" | "any";  seens: tuple of frozensets
 # hold: 0 no live iterator, 1 iterator created but not started, 2 iterator delivered a row
+# yp: the yield_per in force (most recent yield_per() call, execution option or view prefix); None / < 1 = none
 
 ONE_FAMILY = ("first", "one", "one_or_none", "scalar", "scalar_one", "scalar_one_or_none")
 RCE = ("X", "ResourceClosedError")
@@ -112,12 +113,13 @@ class Config:
         self.view = cur
         self.nsets = nsets
         self.two_facets = cur is not base
+        self.separate_features = False  # set by the driver (quick tier)
 
     def facet(self, target):
         return self.view if target == "v" else self.base
 
     def initial(self):
-        return State(0, "open", tuple(frozenset() for _ in range(self.nsets)), 0)
+        return State(0, "open", tuple(frozenset() for _ in range(self.nsets)), 0, self.yield_per)
 
     # ---- projections
     def fields(self, F):
@@ -144,8 +146,9 @@ def canon(cfg, st):
     """canonical, future-determining part of a model state"""
     if st.pos >= cfg.n or st.closed != "open":
         # nothing left to deliver: seen sets can no longer be observed
-        return (cfg.n, st.closed, (), st.hold if st.closed == "open" else 0)
-    return (st.pos, st.closed, tuple(tuple(sorted(s, key=repr)) for s in st.seens), st.hold)
+        # ... and neither can the batch size
+        return (cfg.n, st.closed, (), st.hold if st.closed == "open" else 0, None)
+    return (st.pos, st.closed, tuple(tuple(sorted(s, key=repr)) for s in st.seens), st.hold, st.yp)
 
 
 def _scan(cfg, st, F, ignore_seen=False, uniq_proj=None):
@@ -190,6 +193,10 @@ def _take_all(cfg, st, F):
     return list(_scan(cfg, st, F))
 
 
+def yp_in_force(st):
+    return st.yp is not None and st.yp >= 1
+
+
 def enabled(cfg, st, alphabet):
     """filter a static alphabet [(target, name, arg)] by what the current state allows"""
     out = []
@@ -201,6 +208,17 @@ def enabled(cfg, st, alphabet):
             continue
         if name == "hold_new" and (st.hold or st.closed != "open"):
             continue
+        if name == "yield_per":
+            # a no-op once nothing is left; quick tier: explored separately from a live iterator
+            if st.closed != "open" or st.pos >= cfg.n or (cfg.separate_features and st.hold):
+                continue
+        if name == "hold_new" and cfg.separate_features and st.yp != cfg.yield_per:
+            continue
+        if arg is None and name in ("fetchmany", "part1", "partall") and cfg.two_facets and not yp_in_force(st):
+            # size-less batch without yield_per through a unique() facet while a second facet exists:
+            # how many trailing duplicates were consumed is unspecified -> not enumerated
+            if cfg.facet(t).uniq is not None:
+                continue
         if name == "hold_next" and (not st.hold or st.closed != "open"):
             continue
         out.append(op)
@@ -215,12 +233,16 @@ def apply(cfg, st, target, name, arg, ignore_seen=False, scalar_row_unique=False
         return ("det", st._replace(closed="hard", pos=n), ("0",))
     if name == "hold_new":
         return ("det", st._replace(hold=1), ("0",))
+    if name == "yield_per":
+        # documented: rows are buffered / partitioned in batches of this size from now on; the rows
+        # themselves are unchanged.  "If set to a value below 1, fetches all rows for the next buffer"
+        return ("det", st._replace(yp=arg), ("0",))
 
     # ---------------- size resolution for the "many" ops
     many = name in ("fetchmany", "part1", "partall")
     size = arg
     if many and size is None:
-        size = cfg.yield_per  # may stay None -> open
+        size = st.yp if yp_in_force(st) else None  # None -> open
 
     def empty_for(nm):
         if nm in ("next", "iter1", "hold_next", "part1"):
